@@ -3657,6 +3657,17 @@ class Canon:
                 d = self._dispatcher(f.attr, module, known, recv_is_class)
                 if d is not None:
                     return d, True, prep
+            if isinstance(f, ast.Attribute) and isinstance(f.value, ast.Name) and f.value.id in module.imports and f.value.id not in local_types \
+                    and f.attr.startswith("_") and not f.attr.startswith("__") and f.attr not in keep and (f.attr in inline or f"fn:{f.attr}" not in known):
+                # alias._helper(..): a private function of another module of the program, reached through the module's name
+                try:
+                    r = module.resolve(f)
+                except Exception:
+                    r = None
+                if isinstance(r, ast.FunctionDef):
+                    src_m = next((m_ for m_ in self.prog.modules.values() if r in m_.functions.values()), None)
+                    if src_m is not None:
+                        return foreign(r, src_m.name), False, prep
             if isinstance(f, ast.Name):
                 name = f.id
                 if name in keep:
